@@ -23,16 +23,84 @@ void k_mult_avx512(u64 *c, const u64 *a, const u64 *b)
 #else
 void vf_x86_mul64(u64 *rax, u64 *rdx, u64 src) { __CPROVER_assert(0, "no multiplication in the copy/add/sub helpers"); }
 #endif
-/* index lists: symbolic by default; in the *_p1 / *_p2 groups they are fixed to one concrete pattern (bounded stand-in for the
- * overloads whose symbolic-index-list unit does not finish): p1 = reversed identity, p2 = (5k+3) mod 11 (distinct, non-monotone) */
-#if VF_IDXPAT == 1
-#define IDXPAT4(p) (p[0] == 3 && p[1] == 2 && p[2] == 1 && p[3] == 0)
-#define IDXPAT8(p) (p[0] == 7 && p[1] == 6 && p[2] == 5 && p[3] == 4 && p[4] == 3 && p[5] == 2 && p[6] == 1 && p[7] == 0)
-#elif VF_IDXPAT == 2
-#define IDXPAT4(p) (p[0] == 3 && p[1] == 8 && p[2] == 2 && p[3] == 7)
-#define IDXPAT8(p) (p[0] == 3 && p[1] == 8 && p[2] == 2 && p[3] == 7 && p[4] == 1 && p[5] == 6 && p[6] == 0 && p[7] == 5)
+/* strides / index lists: symbolic in the default build; with -DVF_SHAPE=n they are fixed to the n-th concrete shape (bounded
+ * stand-in for the overloads whose fully symbolic unit does not finish in the budget):
+ *   1: unit strides, reversed index lists         2: stride 3, index lists (5k+3) mod 11
+ *   3: input stride 0 (broadcast of element 0), output stride 2, input index lists constant 5, output lists spread
+ *   4: large stride 65537, index lists k*65537 */
+#if VF_SHAPE == 1
+static u64 SHI4[4] = {3,2,1,0}, SHI8[8] = {7,6,5,4,3,2,1,0}, SHO4[4] = {3,2,1,0}, SHO8[8] = {7,6,5,4,3,2,1,0};
+#define SH_STRIDE_IN(p) ((u64)1)
+#define SH_STRIDE_OUT(p) ((u64)1)
+#define SH_IDX_IN4(p) SHI4
+#define SH_IDX_IN8(p) SHI8
+#define SH_IDX_OUT4(p) SHO4
+#define SH_IDX_OUT8(p) SHO8
+#define FRESH_IDX(p, n) 1
+#define STRIDEPAT_IN(s) ((s) == 1)
+#define STRIDEPAT_OUT(s) ((s) == 1)
+#define IDXPAT_IN4(p) (p[0] == 3 && p[1] == 2 && p[2] == 1 && p[3] == 0)
+#define IDXPAT_IN8(p) (p[0] == 7 && p[1] == 6 && p[2] == 5 && p[3] == 4 && p[4] == 3 && p[5] == 2 && p[6] == 1 && p[7] == 0)
+#define IDXPAT_OUT4(p) IDXPAT_IN4(p)
+#define IDXPAT_OUT8(p) IDXPAT_IN8(p)
+#elif VF_SHAPE == 2
+static u64 SHI4[4] = {3,8,2,7}, SHI8[8] = {3,8,2,7,1,6,0,5}, SHO4[4] = {3,8,2,7}, SHO8[8] = {3,8,2,7,1,6,0,5};
+#define SH_STRIDE_IN(p) ((u64)3)
+#define SH_STRIDE_OUT(p) ((u64)3)
+#define SH_IDX_IN4(p) SHI4
+#define SH_IDX_IN8(p) SHI8
+#define SH_IDX_OUT4(p) SHO4
+#define SH_IDX_OUT8(p) SHO8
+#define FRESH_IDX(p, n) 1
+#define STRIDEPAT_IN(s) ((s) == 3)
+#define STRIDEPAT_OUT(s) ((s) == 3)
+#define IDXPAT_IN4(p) (p[0] == 3 && p[1] == 8 && p[2] == 2 && p[3] == 7)
+#define IDXPAT_IN8(p) (p[0] == 3 && p[1] == 8 && p[2] == 2 && p[3] == 7 && p[4] == 1 && p[5] == 6 && p[6] == 0 && p[7] == 5)
+#define IDXPAT_OUT4(p) IDXPAT_IN4(p)
+#define IDXPAT_OUT8(p) IDXPAT_IN8(p)
+#elif VF_SHAPE == 3
+static u64 SHI4[4] = {5,5,5,5}, SHI8[8] = {5,5,5,5,5,5,5,5}, SHO4[4] = {3,8,2,7}, SHO8[8] = {3,8,2,7,1,6,0,5};
+#define SH_STRIDE_IN(p) ((u64)0)
+#define SH_STRIDE_OUT(p) ((u64)2)
+#define SH_IDX_IN4(p) SHI4
+#define SH_IDX_IN8(p) SHI8
+#define SH_IDX_OUT4(p) SHO4
+#define SH_IDX_OUT8(p) SHO8
+#define FRESH_IDX(p, n) 1
+#define STRIDEPAT_IN(s) ((s) == 0)
+#define STRIDEPAT_OUT(s) ((s) == 2)
+#define IDXPAT_IN4(p) (p[0] == 5 && p[1] == 5 && p[2] == 5 && p[3] == 5)
+#define IDXPAT_IN8(p) (p[0] == 5 && p[1] == 5 && p[2] == 5 && p[3] == 5 && p[4] == 5 && p[5] == 5 && p[6] == 5 && p[7] == 5)
+#define IDXPAT_OUT4(p) (p[0] == 3 && p[1] == 8 && p[2] == 2 && p[3] == 7)
+#define IDXPAT_OUT8(p) (p[0] == 3 && p[1] == 8 && p[2] == 2 && p[3] == 7 && p[4] == 1 && p[5] == 6 && p[6] == 0 && p[7] == 5)
+#elif VF_SHAPE == 4
+static u64 SHI4[4] = {0,65537,131074,196611}, SHI8[8] = {0,65537,131074,196611,262148,327685,393222,458759}, SHO4[4] = {0,65537,131074,196611}, SHO8[8] = {0,65537,131074,196611,262148,327685,393222,458759};
+#define SH_STRIDE_IN(p) ((u64)65537)
+#define SH_STRIDE_OUT(p) ((u64)65537)
+#define SH_IDX_IN4(p) SHI4
+#define SH_IDX_IN8(p) SHI8
+#define SH_IDX_OUT4(p) SHO4
+#define SH_IDX_OUT8(p) SHO8
+#define FRESH_IDX(p, n) 1
+#define STRIDEPAT_IN(s) ((s) == 65537)
+#define STRIDEPAT_OUT(s) ((s) == 65537)
+#define IDXPAT_IN4(p) (p[0] == 0 && p[1] == 65537 && p[2] == 131074 && p[3] == 196611)
+#define IDXPAT_IN8(p) (p[0] == 0 && p[1] == 65537 && p[2] == 131074 && p[3] == 196611 && p[4] == 262148 && p[5] == 327685 && p[6] == 393222 && p[7] == 458759)
+#define IDXPAT_OUT4(p) IDXPAT_IN4(p)
+#define IDXPAT_OUT8(p) IDXPAT_IN8(p)
 #else
-#define IDXPAT4(p) 1
-#define IDXPAT8(p) 1
+#define SH_STRIDE_IN(p) p
+#define SH_STRIDE_OUT(p) p
+#define SH_IDX_IN4(p) p
+#define SH_IDX_IN8(p) p
+#define SH_IDX_OUT4(p) p
+#define SH_IDX_OUT8(p) p
+#define FRESH_IDX(p, n) __CPROVER_is_fresh(p, n)
+#define STRIDEPAT_IN(s) 1
+#define STRIDEPAT_OUT(s) 1
+#define IDXPAT_IN4(p) 1
+#define IDXPAT_IN8(p) 1
+#define IDXPAT_OUT4(p) 1
+#define IDXPAT_OUT8(p) 1
 #endif
 #include "contracts_gen.inc"
